@@ -13,15 +13,15 @@ import (
 
 func init() {
 	register(&Property{
-		ID:        "C10",
-		Title:     "Parsing and evaluation are total: no panics, invalid input is rejected",
-		Technique: "static analysis: every unchecked type assertion discharged by a dominating type-tag guard + GetType/interface table, an only-writer container rule or a tabled reason; nil-guard dominance for every dereference of a nullable Eval*/Get*/FieldTo* result; must-pass rule for lexer+parser error listeners; explicit-panic reachability from the query entry points",
-		LevelText: "Panic-freedom of this repository's own parse→type→evaluate code is decided as a finite list of obligation kinds, each complete over its sites: unchecked type assertions, dereferences of nullable results, lexer/parser error reporting, explicit panics reachable from query entry points. Termination, stack depth, index/arith faults and panics inside ANTLR or other dependencies are not decided.",
-		LevelNote: "Trusted: go/types, x/tools SSA, ANTLR runtime and generated parser; tabled reasons in checker/rules_c10.go (each names one construct).",
-		DesignRef: "DESIGN.md C10",
+		ID:          "C10",
+		Title:       "Parsing and evaluation are total: no panics, invalid input is rejected",
+		Technique:   "static analysis: every unchecked type assertion discharged by a dominating type-tag guard + GetType/interface table, an only-writer container rule or a tabled reason; nil-guard dominance for every dereference of a nullable Eval*/Get*/FieldTo* result; must-pass rule for lexer+parser error listeners; explicit-panic reachability from the query entry points",
+		LevelText:   "Panic-freedom of this repository's own parse→type→evaluate code is decided as a finite list of obligation kinds, each complete over its sites: unchecked type assertions, dereferences of nullable results, lexer/parser error reporting, explicit panics reachable from query entry points. Termination, stack depth, index/arith faults and panics inside ANTLR or other dependencies are not decided.",
+		LevelNote:   "Trusted: go/types, x/tools SSA, ANTLR runtime and generated parser; tabled reasons in checker/rules_c10.go (each names one construct).",
+		DesignRef:   "DESIGN.md C10",
 		Explanation: "ASSERT sites: all single-result type assertions in non-generated production code. NILDEREF sites: every load through a pointer produced by a nullable source call. LEXERR: paths of zitiql.parse to Start_(). PANIC: call-graph reachability of panic instructions from the public query entry points.",
-		Trusted:   []string{"go/types", "golang.org/x/tools/go/ssa v0.29.0", "ANTLR runtime + generated lexer/parser", "exception tables in checker/rules_c10.go"},
-		Rules:     rulesC10,
+		Trusted:     []string{"go/types", "golang.org/x/tools/go/ssa v0.29.0", "ANTLR runtime + generated lexer/parser", "exception tables in checker/rules_c10.go"},
+		Rules:       rulesC10,
 		Controls: []controlExpect{
 			{"C10.ASSERT", "zzControlBad_C10_ASSERT", true},
 			{"C10.NILDEREF", "zzControlBad_C10_NILDEREF", true},
@@ -37,6 +37,7 @@ func rulesC10(c *Ctx) {
 	ruleC10LexErr(c)
 	ruleC10Panic(c)
 	ruleC10NilRecv(c)
+	ruleC10NilBucket(c)
 }
 
 // ruleC10NilRecv: results of the listener's pop helpers are nil once an error is latched; using one
@@ -86,10 +87,10 @@ func ruleC10NilRecv(c *Ctx) {
 // ---- ASSERT ----------------------------------------------------------------------------------
 
 var assertTabled = map[string]string{
-	"(*ast.ToBoltListener).ExitNumberArray: .(ast.Int64Node)":        "runs only when allInt is still true, i.e. every element popped in the loop above passed the comma-ok Int64Node test (flag/element-type correlation, not derivable by dominance)",
-	"(*boltz.EntityChangeState[E]).initFromChild: .(E)":              "GetInitialParentEntity/GetFinalParentEntity return store.parentMapper(child), whose contract (StoreDefinition.ParentMapper) is to return the parent store's entity type E; user-supplied wiring",
-	"(*ast.SortFieldNode).TypeTransform: .(ast.SymbolNode)":          "the operand is node.symbol after transformTypes: transforms of SymbolNode implementers return SymbolNode implementers or leave the value untouched on error (checked by C10.ASSERT.SYMCLOSED)",
-	"(*ast.treeCursor).Current: .(ast.byteArrayWrapper)":             "elements of trees built by TreeSet.Add are byteArrayComparable/reverseByteArrayComparable, both byteArrayWrapper (only-writer checked); NewTreeCursor on a foreign tree is outside the library's own construction",
+	"(*ast.ToBoltListener).ExitNumberArray: .(ast.Int64Node)": "runs only when allInt is still true, i.e. every element popped in the loop above passed the comma-ok Int64Node test (flag/element-type correlation, not derivable by dominance)",
+	"(*boltz.EntityChangeState[E]).initFromChild: .(E)":       "GetInitialParentEntity/GetFinalParentEntity return store.parentMapper(child), whose contract (StoreDefinition.ParentMapper) is to return the parent store's entity type E; user-supplied wiring",
+	"(*ast.SortFieldNode).TypeTransform: .(ast.SymbolNode)":   "the operand is node.symbol after transformTypes: transforms of SymbolNode implementers return SymbolNode implementers or leave the value untouched on error (checked by C10.ASSERT.SYMCLOSED)",
+	"(*ast.treeCursor).Current: .(ast.byteArrayWrapper)":      "elements of trees built by TreeSet.Add are byteArrayComparable/reverseByteArrayComparable, both byteArrayWrapper (only-writer checked); NewTreeCursor on a foreign tree is outside the library's own construction",
 }
 
 func init() {
@@ -1051,4 +1052,236 @@ func ruleC10Panic(c *Ctx) {
 		}
 	}
 	c.OK("C10.PANIC", "query entry points", "-", fmt.Sprintf("%d functions reachable from %d entry points scanned for explicit panics (%d found)", len(fns), len(entries), nPanic))
+}
+
+// ruleC10NilBucket: a *TypedBucket returned by a lookup that can yield nil (Path, GetBucket*,
+// GetEntitiesBucket, GetEntityBucket, ... — computed, not listed) must not be used as the receiver
+// of a method that dereferences it (directly, through a bound method value, or a field access)
+// without a dominating nil test.  Which methods tolerate a nil receiver is computed from their bodies.
+func ruleC10NilBucket(c *Ctx) {
+	p := c.P
+	cg := p.CallGraph()
+	tb := p.Named("boltz", "TypedBucket")
+	isTB := func(t types.Type) bool {
+		pt, ok := t.(*types.Pointer)
+		return ok && namedOf(pt.Elem()) == tb && namedOf(pt.Elem()) != nil
+	}
+	funcs := c.prodFuncs("boltz", "objectz")
+	// --- which functions may return a nil *TypedBucket
+	mayNil := map[*ssa.Function]bool{}
+	resultIdx := func(fn *ssa.Function) int {
+		rs := fn.Signature.Results()
+		for i := 0; i < rs.Len(); i++ {
+			if isTB(rs.At(i).Type()) {
+				return i
+			}
+		}
+		return -1
+	}
+	var retMayNil func(v ssa.Value, seen map[ssa.Value]bool) bool
+	retMayNil = func(v ssa.Value, seen map[ssa.Value]bool) bool {
+		if seen[v] {
+			return false
+		}
+		seen[v] = true
+		switch x := v.(type) {
+		case *ssa.Const:
+			return x.IsNil()
+		case *ssa.Phi:
+			for _, e := range x.Edges {
+				if retMayNil(e, seen) {
+					return true
+				}
+			}
+		case *ssa.Call:
+			for _, t := range cg.CalleesOf(x.Common()) {
+				if mayNil[t] {
+					return true
+				}
+			}
+		}
+		return false
+	}
+	for changed := true; changed; {
+		changed = false
+		for _, fn := range funcs {
+			if mayNil[fn] {
+				continue
+			}
+			ri := resultIdx(fn)
+			if ri < 0 {
+				continue
+			}
+			fi := (*FactInfo)(nil)
+			for _, r := range returnsOf(fn) {
+				if r.Block() == fn.Recover || ri >= len(r.Results) {
+					continue
+				}
+				v := r.Results[ri]
+				if !retMayNil(v, map[ssa.Value]bool{}) {
+					continue
+				}
+				if fi == nil {
+					fi = ComputeFacts(fn)
+				}
+				if fi.Holds(r.Block(), Fact{"nonnil", v, true}) {
+					continue
+				}
+				mayNil[fn] = true
+				changed = true
+				break
+			}
+		}
+	}
+	// --- which *TypedBucket methods tolerate a nil receiver (greatest fixpoint)
+	nilSafe := map[*ssa.Function]bool{}
+	var methods []*ssa.Function
+	for _, fn := range funcs {
+		if fn.Signature.Recv() != nil && isTB(fn.Signature.Recv().Type()) && len(fn.Params) > 0 {
+			methods = append(methods, fn)
+			nilSafe[fn] = true
+		}
+	}
+	boundTarget := func(mc *ssa.MakeClosure) *ssa.Function {
+		f, _ := mc.Fn.(*ssa.Function)
+		if f == nil || !strings.HasSuffix(f.Name(), "$bound") || len(mc.Bindings) != 1 {
+			return nil
+		}
+		if m, ok := f.Object().(*types.Func); ok {
+			return p.SSA.FuncValue(m)
+		}
+		return nil
+	}
+	// unsafeUse reports why using v (a possibly nil bucket) at instruction `in` dereferences it
+	unsafeUse := func(in ssa.Instruction, v ssa.Value) string {
+		switch x := in.(type) {
+		case *ssa.FieldAddr:
+			if x.X == v {
+				if f, _ := fieldOfAddr(x); f != nil {
+					return "field access ." + f.Name()
+				}
+				return "field access"
+			}
+		case *ssa.UnOp:
+			if x.Op == token.MUL && x.X == v {
+				return "dereference"
+			}
+		case *ssa.MakeClosure:
+			if t := boundTarget(x); t != nil && x.Bindings[0] == v && !nilSafe[t] {
+				return "bound method value ." + t.Name() + " (invoked later on the nil receiver)"
+			}
+		case ssa.CallInstruction:
+			cc := x.Common()
+			if cc.IsInvoke() || len(cc.Args) == 0 || cc.Args[0] != v {
+				return ""
+			}
+			if sc := cc.StaticCallee(); sc != nil && sc.Signature.Recv() != nil && isTB(sc.Signature.Recv().Type()) && !nilSafe[sc] {
+				return "method call ." + sc.Name() + "(), which dereferences its receiver"
+			}
+		}
+		return ""
+	}
+	for changed := true; changed; {
+		changed = false
+		for _, m := range methods {
+			if !nilSafe[m] {
+				continue
+			}
+			recv := ssa.Value(m.Params[0])
+			var fi *FactInfo
+			for _, b := range m.Blocks {
+				for _, in := range b.Instrs {
+					if unsafeUse(in, recv) == "" {
+						continue
+					}
+					if fi == nil {
+						fi = ComputeFacts(m)
+					}
+					if !fi.Holds(b, Fact{"nonnil", recv, true}) {
+						nilSafe[m] = false
+						changed = true
+					}
+				}
+			}
+		}
+	}
+	nSafe := 0
+	for _, m := range methods {
+		if nilSafe[m] {
+			nSafe++
+		}
+	}
+	nMay := 0
+	for range mayNil {
+		nMay++
+	}
+	c.Note(fmt.Sprintf("C10.NILBUCKET: %d lookups can return a nil *TypedBucket; %d of %d TypedBucket methods tolerate a nil receiver", nMay, nSafe, len(methods)))
+	// --- use sites: every function reachable from the query entry points of a store
+	inScope := map[*ssa.Function]bool{}
+	entryNames := map[string]bool{"QueryIds": true, "QueryIdsf": true, "QueryIdsC": true, "QueryWithCursorC": true, "IterateIds": true, "IterateValidIds": true, "Scan": true, "ScanCursor": true, "QueryEntities": true, "QueryEntitiesC": true}
+	var work []*ssa.Function
+	for _, fn := range funcs {
+		if fn.Signature.Recv() != nil && entryNames[fn.Name()] {
+			inScope[fn] = true
+			work = append(work, fn)
+		}
+	}
+	nEntries := len(work)
+	for len(work) > 0 {
+		fn := work[len(work)-1]
+		work = work[:len(work)-1]
+		for _, t := range cg.edges[fn] {
+			if !inScope[t] {
+				inScope[t] = true
+				work = append(work, t)
+			}
+		}
+	}
+	c.Note(fmt.Sprintf("C10.NILBUCKET scope: %d functions reachable from %d query entry points", len(inScope), nEntries))
+	n := 0
+	for _, fn := range funcs {
+		if !inScope[fn] {
+			continue
+		}
+		var fi *FactInfo
+		for _, b := range fn.Blocks {
+			for _, in := range b.Instrs {
+				for _, op := range in.Operands(nil) {
+					if op == nil || *op == nil {
+						continue
+					}
+					src, ok := (*op).(*ssa.Call)
+					if !ok || !isTB(src.Type()) {
+						continue
+					}
+					may := false
+					for _, t := range cg.CalleesOf(src.Common()) {
+						if mayNil[t] {
+							may = true
+						}
+					}
+					if !may {
+						continue
+					}
+					why := unsafeUse(in, src)
+					if why == "" {
+						continue
+					}
+					if fi == nil {
+						fi = ComputeFacts(fn)
+						c.Analysed(FnName(fn))
+					}
+					n++
+					cal, _ := calleeOf(src.Common())
+					cn := "?"
+					if cal != nil {
+						cn = cal.Name()
+					}
+					construct := fmt.Sprintf("%s: %s on result of %s", FnName(fn), strings.SplitN(why, " (", 2)[0], cn)
+					c.Check(fi.Holds(b, Fact{"nonnil", src, true}), "C10.NILBUCKET", construct, p.Pos(in.Pos()), "dominated by a nil test of the looked-up bucket", "the lookup returns nil when the bucket does not exist and the result is used without a nil test: "+why)
+				}
+			}
+		}
+	}
+	c.Floor("C10.NILBUCKET", 3)
 }
